@@ -393,16 +393,29 @@ class Cons:
             return False      # only interval information: the caller's sup() test already covered it
         if len(les) + len(eqs) > 28:
             # keep the constraints closest to the query (by shared variables, then sparsity); dropping constraints is sound
+            # breadth-first distance of every variable from the query (through shared constraints): a proof is a chain of constraints
+            # starting at the query, so the closest ones are kept
             qv = set(extra.terms)
-            near = set(qv)
-            for c in les + eqs:
-                if any(v in qv for v in c.terms):
-                    near.update(c.terms)
+            dist = {v: 0 for v in qv}
+            frontier = set(qv)
+            allc = les + eqs
+            d = 0
+            while frontier and d < 8:
+                d += 1
+                nxt = set()
+                for c in allc:
+                    if any(v in frontier for v in c.terms):
+                        for v in c.terms:
+                            if v not in dist:
+                                dist[v] = d
+                                nxt.add(v)
+                frontier = nxt
 
             def rank(c):
-                return (-sum(1 for v in c.terms if v in qv), -sum(1 for v in c.terms if v in near), len(c.terms), abs(c.const) > (1 << 40))
+                ds = sorted(dist.get(v, 99) for v in c.terms)
+                return (ds[0], ds[-1], len(c.terms), abs(c.const) > (1 << 40))
             les = sorted(les, key=rank)[:22]
-            eqs = sorted(eqs, key=rank)[:8]
+            eqs = sorted(eqs, key=rank)[:10]
             comp = set(qv)
             for c in les + eqs:
                 comp.update(c.terms)
@@ -539,7 +552,7 @@ def _relaxed(c, other, bounds_other):
     return LinForm(c.terms, k)
 
 
-def join_cons(a, b, bounds_a, bounds_b, candidates_extra=()):
+def join_cons(a, b, bounds_a, bounds_b, candidates_extra=(), relax=True):
     """constraints holding in both: those of a entailed by b and vice versa"""
     out = Cons()
     for c in a.eq:
@@ -564,16 +577,20 @@ def join_cons(a, b, bounds_a, bounds_b, candidates_extra=()):
         if c in b.le or b.entails_le(c, bounds_b):
             out.le.add(c)
         else:
-            r = _relaxed(c, b, bounds_b)
+            r = _relaxed(c, b, bounds_b) if relax else None
             if r is not None:
                 out.le.add(r)
     for c in b.le:
         if c in out.le:
             continue
+        if not relax:
+            old = a.le.d.get(LeSet._key(c))
+            if old is not None and old.const != c.const:
+                continue        # same linear part, constant moving from visit to visit: drifting, dropped instead of followed
         if a.entails_le(c, bounds_a):
             out.le.add(c)
         else:
-            r = _relaxed(c, a, bounds_a)
+            r = _relaxed(c, a, bounds_a) if relax else None
             if r is not None:
                 out.le.add(r)
     for c in candidates_extra:
